@@ -35,6 +35,22 @@ def _badgeom(ok):
     return st.sampled_from([g for g in (0, 1, 2, 3, 4, -1, 1.5) if g not in ok])
 
 
+@st.composite
+def _ken2_early(draw):
+    """documented: an outer detonator must not fire before t_d3 + R (1/D1 + 1/D2) - |a_i| / D2 (non-default speeds, radius, positions)"""
+    D1 = draw(uni(2.0, 6.0))
+    D2 = draw(uni(0.4, 0.95)) * D1 if draw(st.booleans()) else draw(uni(0.5, 1.9))
+    R = draw(uni(1.5, 4.0))
+    dets = [R + draw(uni(2.0, 8.0)), R + draw(uni(0.5, 3.0)), -R - draw(uni(0.5, 3.0)), -R - draw(uni(2.0, 8.0))]
+    t3 = draw(uni(-1.0, 1.0))
+    bound = [t3 + R * (1 / D1 + 1 / D2) - abs(a) / D2 for a in dets]
+    i = draw(st.integers(0, 3))
+    t = [b + draw(uni(0.2, 2.0)) for b in bound]
+    t[i] = bound[i] - draw(uni(0.02, 0.5))
+    t_d = [t[0], t[1], t3, t[2], t[3]]
+    return dict(D1=D1, D2=D2, R=R, dets=dets, t_d=t_d)
+
+
 def catalogue():
     C = []
 
@@ -93,6 +109,7 @@ def catalogue():
     add('ken2.det-inside', K2, {}, dict(dets=st.sampled_from([[2.0, 5.0, -5.0, -10.0], [10.0, 5.0, -3.0, -10.0], [10.0, -1.0, -5.0, -10.0]])))
     add('ken2.t_d-count', K2, {}, dict(t_d=st.sampled_from([[2.0, 1.0, 0.0, 1.0], [2.0, 1.0, 0.0, 1.0, 2.0, 3.0]])))
     add('ken2.t_d-too-early', K2, {}, dict(t_d=st.sampled_from([[-8.0, 1.0, 0.0, 1.0, 2.0], [2.0, -2.0, 0.0, 1.0, 2.0], [2.0, 1.0, 0.0, -1.0, 2.0], [2.0, 1.0, 0.0, 1.0, -6.0]])))
+    add('ken2.t_d-too-early-general', K2, {}, dict(__multi__=_ken2_early()))
     K3 = 'kenamond.kenamond3.Kenamond3'
     add('ken3.geometry', K3, {}, dict(geometry=st.sampled_from([1, 4, 0])))
     add('ken3.R', K3, {}, dict(R=_neg()))
@@ -185,7 +202,7 @@ def raise_sites():
 @st.composite
 def restriction_case(draw):
     e = draw(st.sampled_from(CAT))
-    vals = {k: draw(v) for k, v in e['viol'].items()}
+    vals = draw(e['viol']['__multi__']) if '__multi__' in e['viol'] else {k: draw(v) for k, v in e['viol'].items()}
     return dict(solver=e['solver'], id=e['id'], base={k: v for k, v in e['base'].items()}, vals=vals, where=e['where'], doc_only=e['doc_only'], special=e['special'])
 
 
@@ -419,7 +436,8 @@ def check_valid(case):
         if fam == 'blake':
             cl = math.sqrt(float(s.long_mod) / case['params']['ref_density'])
             a = case['params']['cavity_radius']
-            x = np.array([a] + [a + f * cl * t for f in case['fr']])
+            # ... and the undisturbed far field (any r >= a is a valid request: zero displacement ahead of the front)
+            x = np.array([a] + [a + f * cl * t for f in case['fr']] + [a + m * (cl * t + a) for m in (10.0, 1e3, 1e5)])
         if fam == 'sedov':
             cat.quiet(s, np.array([1.0]), t)
             x = x * float(s.r2)
